@@ -34,6 +34,14 @@ SIZES = [(2, 2), (3, 2), (2, 3), (3, 3), (4, 3), (5, 4), (7, 5), None]
 SMALL_SIZES = SIZES[:-1]
 
 
+class SubInt(int):
+    """an int subclass (like bool or an IntEnum member): representable wherever an int is, stored as the int"""
+
+
+class SubFloat(float):
+    """a float subclass: stored as the float"""
+
+
 def module(fam):
     return importlib.import_module('BTrees.%sBTree' % fam)
 
